@@ -46,17 +46,6 @@ def fmtRead : Except ReadErr (Nat × Bytes) → String
   | .error .decode => "err:decode"
   | .error .io => "err:io"
 
-/-- number of length-delimited protobuf messages in the entry area (fuel = bytes) -/
-def countEntries : Nat → Bytes → Nat
-  | 0, _ => 0
-  | fuel + 1, bs =>
-    if bs.isEmpty then 0
-    else
-      -- varint length (entries are far below 2^14 bytes)
-      let b0 := (bs.getD 0 0).toNat
-      let (len, adv) := if b0 < 128 then (b0, 1) else (b0 - 128 + (bs.getD 1 0).toNat * 128, 2)
-      1 + countEntries fuel (bs.drop (adv + len))
-
 def runSeq (pristine : Bytes) (entries : List (Nat × Nat)) (patch : String) :
     List String → Bytes → BlockCache → List String
   | [], _, _ => []
@@ -81,10 +70,7 @@ def answer (line : String) : String :=
     | .error _ => "err:decode"
     | .ok (count, body) =>
       let origBody := orig.take (orig.length - 24)
-      if body != origBody then "accepted-altered"
-      else
-        let n := countEntries body.length body
-        if count ≤ n then "ok:" ++ toString count else "err:decode-or-abort"
+      if body != origBody then "accepted-altered" else "ok:" ++ toString count
   | "col" :: h :: ents :: patch :: seq =>
     let pristine := hexBytes h
     let entries := parseEntries ents
